@@ -32,8 +32,11 @@ QUICK_N = 208
 THOROUGH_N = 6000
 CHUNK = 1
 RULE = ("gen(seed) draws a workload: 1-2 requests (Content-Length / chunked bodies, stream <= 300 B "
-        "in quick), application kind (web sync / async sleeping / @stream_request_body incl. early "
-        "finish / raw HTTPServerConnectionDelegate / plain callable, the latter two with or without "
+        "in quick; ~18% carry a framing error after the header block: over-long chunk-size line by "
+        "chunk extension or leading zeros, bad chunk size, bad chunk terminator, CL+TE, bad "
+        "Content-Length), application kind (web sync / async sleeping / @stream_request_body incl. early "
+        "finish / raw HTTPServerConnectionDelegate incl. answering from headers_received / plain "
+        "callable, the latter two with or without "
         "set_close_callback and optionally never finishing), response scripts (sleeps, "
         "writes, awaited flushes), client window + manual consumption (back-pressure), server "
         "chunk_size / body_timeout / idle_connection_timeout, 2-3 segmentations, low-rate "
@@ -88,28 +91,46 @@ def build_request(i, r):
     lines = ["%s /%s%d HTTP/1.1" % (r.get("method", "POST"), r.get("hk", "s"), i), "Host: h"]
     if r.get("close"):
         lines.append("Connection: close")
+    bad = r.get("bad")  # framing error placed after the header block (see gen)
     if te == "chunked":
         lines.append("Transfer-Encoding: chunked")
+        if bad == "clte":
+            lines.append("Content-Length: %d" % len(body))
         out = bytearray("\r\n".join(lines).encode("latin1") + b"\r\n\r\n")
         hl = len(out)
+        pieces = []
         pos = 0
         for sz in r.get("chunks") or ():
             if pos >= len(body):
                 break
             if not isinstance(sz, int) or sz <= 0:
                 continue
-            piece = body[pos:pos + sz]
-            pos += len(piece)
-            out += b"%x\r\n" % len(piece) + piece + b"\r\n"
+            pieces.append(body[pos:pos + sz])
+            pos += len(pieces[-1])
         if pos < len(body):
-            piece = body[pos:]
-            out += b"%x\r\n" % len(piece) + piece + b"\r\n"
-        out += b"0\r\n\r\n"
+            pieces.append(body[pos:])
+        badat = r.get("badat") or 0
+        badat = max(0, min(badat if isinstance(badat, int) else 0, len(pieces)))
+        ext = r.get("extlen")
+        ext = ext if isinstance(ext, int) and ext >= 0 else 70
+        for j, piece in enumerate(pieces + [b""]):
+            size = b"%x" % len(piece)
+            if j == badat:
+                if bad == "ext":  # (legal) chunk extension, longer than Tornado's 64-byte limit
+                    size += b";" + b"e" * ext
+                elif bad == "zeros":
+                    size = b"0" * ext + size
+                elif bad == "size":
+                    size = b"zz"
+            out += size + b"\r\n"
+            if piece:
+                out += piece + (b"XY" if bad == "term" and j == badat else b"\r\n")
+        out += b"\r\n"
         return bytes(out), hl, body
     if te == "none":
         out = "\r\n".join(lines).encode("latin1") + b"\r\n\r\n"
         return out, len(out), b""
-    lines.append("Content-Length: %d" % len(body))
+    lines.append(("Content-Length: %dx" if bad == "cl" else "Content-Length: %d") % len(body))
     head = "\r\n".join(lines).encode("latin1") + b"\r\n\r\n"
     return head + body, len(head), body
 
@@ -120,7 +141,7 @@ def build_stream(reqs):
     for i, r in enumerate(reqs):
         w, hl, body = build_request(i, r)
         metas.append({"start": len(data), "hdr_end": len(data) + hl, "end": len(data) + len(w),
-                      "body": body})
+                      "body": body, "bad": r.get("bad")})
         data += w
     return bytes(data), metas
 
@@ -379,12 +400,19 @@ class _RawMsg(httputil.HTTPMessageDelegate):
         self.ridx = -1
         self.sc = {}
         self.nd = 0
+        self.answered = False
 
     def headers_received(self, start_line, headers):
         self.ridx = _ridx(start_line.path)
         self.sc = self.st.script(self.ridx)
         self.request = httputil.HTTPServerRequest(
             connection=self.conn, start_line=start_line, headers=headers)
+        if self.sc.get("early") == "headers":
+            # answers before the body was read: Tornado closes the connection after the
+            # response and tells this delegate on_connection_close instead of finish
+            self.st.probe("early_answer_in_headers_received")
+            self.answered = True
+            _Resp(self.st, self.conn, self.ridx, "raw").start()
         if self.sc.get("prep"):
             return self._prep()
         return None
@@ -405,7 +433,8 @@ class _RawMsg(httputil.HTTPMessageDelegate):
         await asyncio.sleep(self.sc["dr"] * UNIT)
 
     def finish(self):
-        _Resp(self.st, self.conn, self.ridx, "raw").start()
+        if not self.answered:
+            _Resp(self.st, self.conn, self.ridx, "raw").start()
 
     def on_connection_close(self):
         pass
@@ -461,6 +490,7 @@ def gen(rng, tier, index):
     budget = 300 if tier == "quick" else rng.choice([300, 300, 600])
     bp = rng.random() < 0.4  # back-pressure workload
     reqs = []
+    favour = False
     for i in range(nreq):
         te = rng.choice(["cl", "cl", "chunked", "chunked", "none"])
         room = max(0, (budget // nreq) - 70)
@@ -496,6 +526,26 @@ def gen(rng, tier, index):
                 sc["dr"] = rng.choice([1, 2, 3])
         if r["hk"] == "t" and rng.random() < 0.25:
             sc["early"] = rng.choice(["prepare", "raise", "data"])
+        if r["hk"] == "w" and rng.random() < 0.2:
+            sc["early"] = "headers"
+        if (te == "chunked" and rng.random() < 0.3) or (te == "cl" and rng.random() < 0.08):
+            # malformed-but-plausible framing after the header block
+            r["bad"] = rng.choice(["ext", "ext", "zeros", "size", "term", "clte"]) \
+                if te == "chunked" else "cl"
+            if te == "chunked":
+                r["badat"] = rng.choice([0, 0, 1, 2, 9])
+                r["extlen"] = rng.choice([63, 70, 70, 90])
+            if r["bad"] in ("ext", "zeros") and rng.random() < 0.6:
+                # the interesting case is a size-limited read that becomes unsatisfiable on
+                # a stream that is already closed with the line buffered: let the application
+                # answer before the body (Tornado then closes the connection itself) ...
+                if app == "web":
+                    r["hk"] = "t"
+                    sc["early"] = rng.choice(["prepare", "raise"])
+                elif app == "raw":
+                    sc["early"] = "headers"
+                # ... and let the whole request be buffered by the read that finds the headers
+                favour = favour or rng.random() < 0.7
         if r["hk"] in ("w", "c"):
             if rng.random() < 0.5:
                 sc["nocb"] = True
@@ -544,14 +594,14 @@ def gen(rng, tier, index):
         "app": app,
         "window": window,
         "consume": [window or 0, rng.choice([0, 1, 2])],
-        "chunk_size": rng.choice([None, None, 16, 7, 64]),
-        "body_timeout": rng.choice([None, None, 6, 12, 30]),
+        "chunk_size": None if favour else rng.choice([None, None, 16, 7, 64]),
+        "body_timeout": None if favour else rng.choice([None, None, 6, 12, 30]),
         "idle_timeout": rng.choice([None, None, 10, 25]),
         "settle": rng.choice([0, 0, 1, 3, "late"]),
         "bystander": rng.choice([None, None, None, "idle", "served", "partial"]),
     }
     tapes = {}
-    if rng.random() < 0.3:
+    if rng.random() < 0.3 and not favour:
         tapes["recv_cap"] = {"v": [rng.choice([0, 1, 3, 9, 20]) for _ in range(rng.randint(1, 6))],
                              "cycle": True}
     if rng.random() < 0.15:
@@ -976,6 +1026,15 @@ def run(scn, full_log=False):
                     bad("body.finish_with_partial_body",
                         f"request {tgt} ({app_kind}, fault {fdesc}): finish() after {len(got)} of "
                         f"{len(sent)} body bytes")
+                if metas[ridx].get("bad"):
+                    probes["malformed_request_started"] = \
+                        probes.get("malformed_request_started", 0) + 1
+                    if (reqs[ridx].get("script") or {}).get("early"):
+                        probes["malformed_request_answered_early"] = \
+                            probes.get("malformed_request_answered_early", 0) + 1
+                    if probes.get("handler_started_on_closed_stream"):
+                        probes["malformed_request_on_closed_stream"] = \
+                            probes.get("malformed_request_on_closed_stream", 0) + 1
                 if nC and not nF:
                     probes["term_close"] = probes.get("term_close", 0) + 1
                     hit = True
